@@ -990,8 +990,12 @@ impl<'a> Read for ZipFile<'a> {
     }
 }
 
-impl<'a> Drop for ZipFile<'a> {
-    fn drop(&mut self) {
+impl<'a> ZipFile<'a> {
+    /// Consumes what is left of the raw data of an entry handed out by a streaming reader, so
+    /// that the next entry is accessible, and reports a failure of the underlying reader
+    /// (which `Drop` cannot do). Does nothing for entries of a seekable archive, or when the
+    /// data has been consumed already.
+    pub(crate) fn skip_remaining(&mut self) -> io::Result<()> {
         // self.data is Owned, this reader is constructed by a streaming reader.
         // In this case, we want to exhaust the reader so that the next file is accessible.
         if let Cow::Owned(_) = self.data {
@@ -999,10 +1003,10 @@ impl<'a> Drop for ZipFile<'a> {
 
             // Get the inner `Take` reader so all decryption, decompression and CRC calculation is skipped.
             let mut reader: std::io::Take<&mut dyn std::io::Read> = match &mut self.reader {
-                ZipFileReader::NoReader => {
-                    let innerreader = ::std::mem::replace(&mut self.crypto_reader, None);
-                    innerreader.expect("Invalid reader state").into_inner()
-                }
+                ZipFileReader::NoReader => match self.crypto_reader.take() {
+                    Some(innerreader) => innerreader.into_inner(),
+                    None => return Ok(()),
+                },
                 reader => {
                     let innerreader = ::std::mem::replace(reader, ZipFileReader::NoReader);
                     innerreader.into_inner()
@@ -1013,13 +1017,20 @@ impl<'a> Drop for ZipFile<'a> {
                 match reader.read(&mut buffer) {
                     Ok(0) => break,
                     Ok(_) => (),
-                    // Drop cannot report the error and must not panic (a second panic while
-                    // unwinding aborts the process); the stream is left where the failure
-                    // occurred and the next read from it reports the error.
-                    Err(_) => break,
+                    Err(e) => return Err(e),
                 }
             }
         }
+        Ok(())
+    }
+}
+
+impl<'a> Drop for ZipFile<'a> {
+    fn drop(&mut self) {
+        // Drop cannot report the error and must not panic (a second panic while
+        // unwinding aborts the process); the stream is left where the failure
+        // occurred.
+        let _ = self.skip_remaining();
     }
 }
 
